@@ -1,6 +1,7 @@
 """C17: design parameters are accepted exactly when in their documented domain."""
 import json
 import math
+import numpy as np
 import os
 import core
 
@@ -117,13 +118,16 @@ def scalar_grid(f):
     fb = float(b)
     vals += [b, fb, math.nextafter(fb, INF), math.nextafter(fb, -INF), int(b) if float(b).is_integer() else fb,
              b + 1, b - 1, fb + 0.5]
+    # numpy's float64 is a float: a value computed with numpy is in the domain whenever the plain float is
+    vals += [np.float64(fb), np.float64(math.nextafter(fb, INF)), np.float64(math.nextafter(fb, -INF))]
+  vals += [np.float64(0.85), np.float64(0.95), np.float64(3.0), np.float64(0.5)]
   return vals
 
 
 def range_grid(f, rng):
   lo, hi = RANGE_BOUNDS[f]
   pts = [lo, float(lo), math.nextafter(float(lo), INF), math.nextafter(float(lo), -INF), 0, 1, 2, 3, 0.5, 0.25,
-         1.5, 2.0, 0.999, NAN, INF, -INF, -1, True, 1e300]
+         1.5, 2.0, 2.5, 1.25, 3.75, 0.999, NAN, INF, -INF, -1, True, 1e300, np.float64(2.0), np.float64(0.3)]
   if math.isfinite(hi):
     pts += [hi, math.nextafter(float(hi), -INF), math.nextafter(float(hi), INF)]
   vals = [None, 'x', Other(), 3, 0.5, (), (1,), (1, 2, 3), [1, 2], (None, 1), (1, None), ('a', 2), (1, 'b')]
